@@ -8,8 +8,11 @@ def m_out_len(e, st, args, I):
     return len(st.out)
 def m_in_pos(e, st, args, I):
     return st.inpos
+def m_in_eof(e, st, args, I):
+    return 1 if st.eof else 0
 def m_in_from_out(e, st, args, I):
     st.inp = list(st.out[args[0]:args[1]]); st.inpos = 0
+    st.eof = False
     st.inp_fixed = True
 def cell_bv(c):
     if type(c) is int:
@@ -130,7 +133,7 @@ def m_sym_f32(e, st, a, I):
 
 
 M2 = {
- "sym_out_len": m_out_len, "sym_in_pos": m_in_pos, "sym_in_from_out": m_in_from_out, "sym_out_equal": m_out_equal, "sym_reach": m_reach,
+ "sym_out_len": m_out_len, "sym_in_pos": m_in_pos, "sym_in_eof": m_in_eof, "sym_in_from_out": m_in_from_out, "sym_out_equal": m_out_equal, "sym_reach": m_reach,
  "_ZNSt7__cxx1112basic_stringIcSt11char_traitsIcESaIcEED1Ev": m_str_dtor, "_ZNSt7__cxx1112basic_stringIcSt11char_traitsIcESaIcEED2Ev": m_str_dtor,
  "_ZNSt7__cxx1112basic_stringIcSt11char_traitsIcESaIcEE9_M_createERmm": m_str_create,
  "__dynamic_cast": dyn_cast, "sym_f32": m_sym_f32,
